@@ -432,8 +432,6 @@ class Interp:
                 if not new:
                     continue
                 a, k_ = new[0]
-                if h.kind == "method":
-                    a = a[1:] if a and not isinstance(a[0], (int, str, bytes, list, dict, type(None), bool)) else a
                 want_kw = dict(kwargs)
                 det = None
                 if h.kind == "details":
